@@ -685,6 +685,7 @@ func runRaces(specs []RaceSpec, res *lib.Result) {
 		}
 		res.Hit("family:" + sp.family())
 		res.Hit(fmt.Sprintf("race-n:%s", bucket(sp.N)))
+		res.Distribution["race-trials"] += rep.Trials
 		for h, k := range rep.Hits {
 			res.Hit("race:" + h)
 			_ = k
